@@ -45,13 +45,21 @@ MantDigits(n, r, pat) ==
 MantText(n, r, pat) == [i \in 1..n |-> Ch(MantDigits(n, r, pat)[i], FALSE)]
 
 IntMacros == <<"ubig", "ibig", "static_ubig", "static_ibig">>
-IntStyles == <<10, -2, -8, -16, 2, 3, 7, 1010, 16, 32, 36>>     \* 10 decimal; -r prefix of radix r; r `base r`; 1010 = `base 10`
+IntStyles == <<10, -2, -8, -16, 2, 3, 7, 1010, 16, 32, 36, 3202, 3208, 3616>>
+\* 10 decimal; -r prefix of radix r; r `base r`; 1010 = `base 10`;
+\* 3202 / 3208 / 3616: `base 32` / `base 32` / `base 36` whose digit string happens to look like a 0b / 0o / 0x literal
+\* (b, o, x are digits of that radix): the letters are digits, not a radix prefix
 \* ---- integer literal
 IntToks(style, mag, neg, pat, upper) ==
-  LET radix == IF style = 10 \/ style = 1010 THEN 10 ELSE IF style < 0 THEN -style ELSE style
+  LET radix == IF style = 10 \/ style = 1010 THEN 10 ELSE IF style < 0 THEN -style ELSE IF style > 3000 THEN style \div 100 ELSE style
       txt == Sep(DigitText(mag, radix, upper), pat)
       sg == IF neg THEN <<Minus>> ELSE <<>>
-  IN IF style = 10 THEN sg \o <<Tok("digits", txt)>>
+  IN IF style > 3000 THEN
+       LET pr == style % 100                                   \* 2, 8 or 16: which literal it looks like
+           rx == style \div 100                                \* 32 or 36
+           body == IF mag = <<>> THEN <<48>> ELSE DigitText(mag, pr, FALSE)
+       IN sg \o <<Tok("digits", Prefix(pr) \o body), Tok("base", STR_base), Tok("radix", Dec(rx))>>
+     ELSE IF style = 10 THEN sg \o <<Tok("digits", txt)>>
      ELSE IF style < 0 THEN sg \o <<Tok("prefix", Prefix(radix)), Tok("digits", txt)>>
      ELSE sg \o (IF HasLetter(txt) THEN <<Tok("uscore", <<cUs>>)>> ELSE <<>>)
              \o <<Tok("digits", txt), Tok("base", STR_base), Tok("radix", Dec(radix))>>
